@@ -144,6 +144,12 @@ Theorem C14_order_by_height : forall l, hsorted (live l).
 Proof. exact live_sorted. Qed.
 Print Assumptions C14_order_by_height.
 
+Theorem C14_order_within_height : forall l h,
+  filter (at_h h) (live l) =
+  filter (at_h h) (filter (fun e => is_live (prune_bound l) (fst e)) (entries l)).
+Proof. exact live_stable. Qed.
+Print Assumptions C14_order_within_height.
+
 (* A flush that fails and whose tail repair succeeds: reports failure, leaves the durable content and
    what a reopen returns unchanged, keeps the pending batch, and leaves the store usable. *)
 Theorem C14_flush_fail_clean_step : forall d m w,
